@@ -24,12 +24,16 @@ def main():
     ck.finish(
         "(1) ellipsoids: the default object and all 48 table entries x latitude -90..90 step 1 deg + {+-89.999999} x longitude -180..180 step 15 deg + {+-179.999999} x h in {-10 km, 0, 1 m, 9 m, 1000 km, 20000 km}: "
         "blh2xyz equals the closed formula (long double) to 1e-6 m, xyz2blh(blh2xyz(.)) is finite, in range, describes the same point and returns the start values within 0.1 mm (measured worst case 8e-9 m at 20000 km, so no larger Bowring allowance is used); exact-pole inputs (0,0,+-(b+h)); table id/name/axes consistency. "
+        "(1b) object histories: ONE Ellipsoid object driven through [set(e1), op1(lat), switch to e2, op2(lat)] for all 49 x 49 ordered pairs (e1, e2) of {default object, 48 table entries} (complete product, e1 = e2 included) "
+        "x 4 ways to switch {set(&E,id), set_ab(a,b), set_af(a,f), set_af1(a,1/f)} x all 7 x 7 pairs (op1, op2) of {blh2xyz, xyz2blh, N, M, W, V, F} x latitude -90..90 step " + ("0.25" if ck.tier == "thorough" else "1") + " deg + {+-89.999999} "
+        "(xyz2blh: point of that geocentric latitude on a sphere, exact pole at +-90): the result of op2 is bit-identical to op2 on a fresh object switched once to e2 the same way; outcome classes record whether the answers on e1 and e2 differ at all. "
         "(2) angles: gon2deg(k*0.0001 gon, k=0.." + kgon + " gon) at precisions 0..6 (all four sign modes and negatives on every " + ("" if ck.tier == "thorough" else "8th ") + "k), 3024 values with seconds 60-j*0.1*10^-p, specials: every produced string has 0<=m<60, 0<=s<60, prec decimals, is accepted by deg2gon and returns the value within half a unit of the last printed digit; "
         "canonical strings d-mm-ss[.5] (6 d x 60 m x 60 s) -> deg2gon -> gon2deg reproduce themselves; rad2dms -> dms2rad on the same k grid in radians within 1e-9 rad; dms2rad of all literals d.mmss (5 d x 60 x 60). "
         "(3) literals: every string of length <= 6 over {0,1,.,-,+,e,E,space,x} through IsFloat and IsInteger against the xs:double / xs:integer lexical grammar (manual: 'decimal numbers', XSD types), every string of length <= 7 through deg2gon against 'sign? D+-D+-D+[.D+]' (manual section on degrees); forms the manual leaves open (spaces after the sign, exponent or bare trailing point in seconds) are counted, not judged. "
         "(4) bearing/distance: all 625 ordered pairs of a 5x5 lattice x 3 offsets x 6 spacings (10 um, 0.1 mm, 1 mm, 1 cm, 100 m, 7.9 km): bearing in [0,2pi), equals atan2 reference, bearing(b,a)=bearing(a,b)+-pi, distance symmetric and exact to 4e-16, d*(cos,sin)=(dx,dy), point and coordinate overloads agree, coincident points give (0,0). "
         "evaluation = one case through all its oracles, non-trivial = distinct grid values / valid literals / non-coincident pairs",
-        assumptions=["values between grid points, strings over other characters or longer than 6 (7) are not covered",
+        assumptions=["object histories are two operations long with one parameter change, both operations at the same latitude, longitude 15 deg, h 1000 m; longer histories and changes of latitude between the operations are not enumerated",
+                     "values between grid points, strings over other characters or longer than 6 (7) are not covered",
                      "the lattice has dy exactly 0 or |dy| > 1e-9|dx|, so the half-open bearing interval is decidable in floating point",
                      "length 7 for deg2gon because the shortest signed d-m-s literal has 6 characters and sign defects need one more"])
 
